@@ -645,19 +645,22 @@ fn shrink_spec(s: &VerifierSpec) -> Vec<VerifierSpec> {
 fn shrink_event(op: &Op) -> Vec<Op> {
     let mut out = vec![];
     match op {
-        Op::CoreIssue { proto, key, nonce_hex, payload, footer, assertion, out: o } => {
+        Op::CoreIssue { proto, key, nonce_hex, payload, footer, assertion, out: o, order } => {
             for p in shrink_payload(payload) {
-                out.push(Op::CoreIssue { proto: *proto, key: *key, nonce_hex: nonce_hex.clone(), payload: p, footer: footer.clone(), assertion: assertion.clone(), out: *o });
+                out.push(Op::CoreIssue { proto: *proto, key: *key, nonce_hex: nonce_hex.clone(), payload: p, footer: footer.clone(), assertion: assertion.clone(), out: *o, order: *order });
             }
             for f in shrink_opt(footer) {
-                out.push(Op::CoreIssue { proto: *proto, key: *key, nonce_hex: nonce_hex.clone(), payload: payload.clone(), footer: f, assertion: assertion.clone(), out: *o });
+                out.push(Op::CoreIssue { proto: *proto, key: *key, nonce_hex: nonce_hex.clone(), payload: payload.clone(), footer: f, assertion: assertion.clone(), out: *o, order: *order });
             }
             for a in shrink_opt(assertion) {
-                out.push(Op::CoreIssue { proto: *proto, key: *key, nonce_hex: nonce_hex.clone(), payload: payload.clone(), footer: footer.clone(), assertion: a, out: *o });
+                out.push(Op::CoreIssue { proto: *proto, key: *key, nonce_hex: nonce_hex.clone(), payload: payload.clone(), footer: footer.clone(), assertion: a, out: *o, order: *order });
+            }
+            if *order != 0 {
+                out.push(Op::CoreIssue { proto: *proto, key: *key, nonce_hex: nonce_hex.clone(), payload: payload.clone(), footer: footer.clone(), assertion: assertion.clone(), out: *o, order: 0 });
             }
             let zeros = "00".repeat(nonce_hex.len() / 2);
             if *nonce_hex != zeros {
-                out.push(Op::CoreIssue { proto: *proto, key: *key, nonce_hex: zeros, payload: payload.clone(), footer: footer.clone(), assertion: assertion.clone(), out: *o });
+                out.push(Op::CoreIssue { proto: *proto, key: *key, nonce_hex: zeros, payload: payload.clone(), footer: footer.clone(), assertion: assertion.clone(), out: *o, order: *order });
             }
         }
         Op::BuilderOp { b, op } => match op {
